@@ -86,8 +86,10 @@ def oracle(case, lines, extrabuf=65536, cheap=8):
         exp_out = "-"
         pre = precondition(op, r_prev, w_prev, p_prev)
         if (status == "ok") != pre:
+            how = {"noassert": "accepted by the real class (no assert fired on the violating call)",
+                   "-": "rejected"}.get(out, "rejected (%s)" % out if status == "rejected" else "ok")
             return (i, "op %r was %s although its documented precondition %s (r=%d w=%d p=%d before)"
-                    % (op, status, "holds" if pre else "fails", r_prev, w_prev, p_prev))
+                    % (op, how, "holds" if pre else "fails", r_prev, w_prev, p_prev))
         if status == "rejected":
             # a rejected op must leave everything unchanged
             if (r, w, p) != (r_prev, w_prev, p_prev) or h != fnv(content):
@@ -417,7 +419,7 @@ def run(chk, replay=None):
     tier, rng = chk.tier, chk.rng
     pr = chk.prove()
     model = vlib.build_model("C10")
-    impl = vlib.build_driver("C10_driver", ["C10_driver.cc"], variant="asan", wrap=["readv"])
+    impl = vlib.build_driver("C10_driver", ["C10_driver.cc"], variant="asan", wrap=["readv", "__assert_fail"])
     consts = open(os.path.join(vlib.COQ, "Gen_Consts.v")).read()
     def cget(n, d):
         m = re.search(r"Definition %s : Z := \((-?\d+)\)" % n, consts)
@@ -523,7 +525,12 @@ def run(chk, replay=None):
             return oracle(cc, li, extrabuf, cheap) is not None
         small = shrink(c, pred)
         p = chk.write_replay("oracle_%s.case" % c.cid, "# %s\n" % msg.replace("\n", "\n# ") + small.text())
-        chk.violation(p, "C10 fails on the implementation: %s (%d failing cases)" % (msg, len(oracle_bad)))
+        also = ""
+        if not pr["ok"]:
+            also = "; ALSO proof obligation(s) no longer check: %s %s" % (pr["broken"], pr["problems"])
+        if corr_bad:
+            also += "; ALSO model != implementation on %d cases" % len(corr_bad)
+        chk.violation(p, "C10 fails on the implementation: %s (%d failing cases)%s" % (msg, len(oracle_bad), also))
     elif corr_bad or not pr["ok"]:
         what = []
         if not pr["ok"]:
